@@ -59,7 +59,8 @@ var rmCmd = &cobra.Command{
 
 			// if the arg is a tracked directory, remove the tracked files beneath it
 			// (and only those: untracked files in the directory are left alone)
-			if client.Idx.IsRegisteredAsDirectory(cleanedArg) {
+			wasDir := client.Idx.IsRegisteredAsDirectory(cleanedArg)
+			if wasDir {
 				var relPaths []string
 				for _, entry := range client.Idx.GetEntriesByDirectory(cleanedArg) {
 					relPaths = append(relPaths, string(entry.Path))
@@ -77,13 +78,14 @@ var rmCmd = &cobra.Command{
 						return fmt.Errorf("fail to delete '%s' from the index: %w", relPath, err)
 					}
 				}
-			} else {
-				// an earlier argument may already have removed what made this one match:
-				// never touch the working tree for a path that is not tracked
-				if _, _, isRegistered := client.Idx.GetEntry([]byte(cleanedArg)); !isRegistered {
-					return fmt.Errorf("fatal: pathspec '%s' did not match any files", arg)
-				}
-
+			}
+			// the name may (also) be a tracked file; an earlier argument may already have removed
+			// what made this one match: never touch the working tree for a path that is not tracked
+			_, _, isRegistered := client.Idx.GetEntry([]byte(cleanedArg))
+			if !isRegistered && !wasDir {
+				return fmt.Errorf("fatal: pathspec '%s' did not match any files", arg)
+			}
+			if isRegistered {
 				// remove from the working tree
 				if err := removeFromWorkingTree(cleanedArg); err != nil {
 					return err
